@@ -125,6 +125,7 @@ func parseAny(s string) interface{} {
 }
 
 var grpSig = map[string]string{}
+var grpArg = map[string]string{}
 
 func runReplay(job *Job) Result {
 	f, err := os.Open(job.InputsFile)
@@ -204,6 +205,20 @@ func runReplay(job *Job) Result {
 					r.Src = "decl"
 					if r.Prop == "" {
 						r.Prop = "C15"
+					}
+				}
+			}
+			if (r.Fn == "GetCallIDSig" || r.Fn == "GetViaBrSig") && r.Grp != "" {
+				// C19, real against real: strings with the same character-class sequence get the same signature
+				key := r.Fn + "|" + r.Grp
+				if first, ok := grpSig[key]; !ok {
+					grpSig[key] = got
+					grpArg[key] = string(args)
+				} else if first != got {
+					declBad++
+					if len(res.Violations) < job.MaxViol {
+						res.Violations = append(res.Violations, Violation{Prop: "C19", What: "two strings with the same character classes get different signatures",
+							Text: r.Fn + string(args), Detail: "real: " + got + "\nother string: " + grpArg[key] + "\nreal: " + first, Sig: "class:" + r.Fn})
 					}
 				}
 			}
